@@ -73,7 +73,7 @@ def logs(draw, max_runs=5, allow_empty=True):
     echo = st.lists(st.integers(-4, len(L.ECHO) - 1), max_size=6)
     pre = draw(echo)
     runs = []
-    step = draw(st.sampled_from([0, 0, 0, 100, 5000, 123456]))
+    step = draw(st.sampled_from([0, 0, 0, 100, 5000, 123456, 3000000000, 2 ** 53 + 1]))   # LAMMPS timesteps are 64-bit ('bigint')
     seed = draw(st.integers(0, 2 ** 32 - 1))
     rng = np.random.default_rng(seed)
     samecols = draw(st.booleans())
@@ -84,7 +84,7 @@ def logs(draw, max_runs=5, allow_empty=True):
         else:
             cols = ['Step'] + draw(st.lists(st.sampled_from(KEYWORDS), min_size=1, max_size=7, unique=True))
             cols0 = cols
-        nrows = draw(st.integers(1, 12))
+        nrows = draw(st.integers(1, 12)) if draw(st.integers(0, 29)) else draw(st.integers(40, 200))
         every = draw(st.sampled_from([1, 10, 100, 250]))
         rel = draw(st.sampled_from(['continue', 'continue', 'continue', 'overlap', 'overlap', 'disjoint', 'disjoint', 'same', 'same', 'backward'])) if r else 'start'
         if r:
@@ -119,8 +119,9 @@ def logs(draw, max_runs=5, allow_empty=True):
 
 @st.composite
 def parse_cases(draw):
-    return {'log': draw(logs()), 'input': draw(st.sampled_from(['text', 'text', 'path', 'stream', 'bytesio'])),
-            'flat': draw(st.sampled_from(['first', 'last', 'all'])), 'sl': [draw(st.integers(0, 2)), draw(st.integers(0, 2))]}
+    return {'log': draw(logs()), 'input': draw(st.sampled_from(['text', 'text', 'path', 'stream', 'bytesio', 'pathlib', 'bytes'])),
+            'flat': draw(st.sampled_from(['first', 'last', 'all'])), 'sl': [draw(st.integers(0, 2)), draw(st.integers(0, 2))],
+            'eol': draw(st.sampled_from(['lf', 'lf', 'lf', 'crlf'])), 'scribble': draw(st.sampled_from(['drop', 'overwrite', 'newcol']))}
 
 
 @st.composite
@@ -146,12 +147,14 @@ def _value(tok):
 
 def _same(got, tok):
     exp, isint = _value(tok)
+    if isint and isinstance(got, (int, np.integer)):
+        return int(got) == exp              # exact, also beyond 2**53
     try:
         g = float(got)
     except (TypeError, ValueError):
         return False
     if isint:
-        return g == exp
+        return g == float(exp)
     if math.isnan(exp):
         return math.isnan(g)
     if math.isinf(exp):
@@ -179,11 +182,16 @@ def _feed(kind, text, tmpdir):
         return text, lambda: None
     if kind == 'bytesio':
         return io.BytesIO(text.encode()), lambda: None
+    if kind == 'bytes':
+        return text.encode(), lambda: None
     path = os.path.join(tmpdir, 'log.lammps')
-    with open(path, 'w') as f:
+    with open(path, 'w', newline='') as f:
         f.write(text)
     if kind == 'path':
         return path, lambda: None
+    if kind == 'pathlib':
+        import pathlib
+        return pathlib.Path(path), lambda: None
     fh = open(path, 'rb')
     return fh, fh.close
 
@@ -339,6 +347,21 @@ def _check_log_object(log, exp, what):
     require(log.lammps_date == ed, lambda: '%s: lammps_date %r, banner date %r' % (what, log.lammps_date, ed))
 
 
+def _scribble(df, how):
+    """what a caller does with a table it was handed: in-place edits"""
+    if df is None:
+        return
+    if how == 'drop':
+        df.drop(df.index, inplace=True)
+    elif how == 'overwrite':
+        for c in list(df.columns):
+            df[c] = -7
+    else:
+        df['mine'] = 1.0
+        if 'Step' in df.columns and len(df):
+            df['Step'] -= int(df['Step'].iloc[0]) + 1
+
+
 # ----------------------------------------------------------------------------- clauses
 
 def oracle_parse(case):
@@ -346,7 +369,14 @@ def oracle_parse(case):
     lc = case['log']
     text, exp = L.synth(lc)
     labels = {'in_' + case['input']}
+    if case.get('eol') == 'crlf':
+        text = text.replace('\n', '\r\n')       # a log written by a Windows build
+        labels.add('crlf')
     _log_labels(lc, labels)
+    if any(len(r['rows']) >= 40 for r in exp['runs']):
+        labels.add('long_run')
+    if any(int(r['rows'][0][0]) >= 2 ** 31 for r in exp['runs'] if r['rows']):
+        labels.add('bigint_steps')
     with tempfile.TemporaryDirectory(prefix='c19-') as tmp:
         arg, close = _feed(case['input'], text, tmp)
         try:
@@ -373,6 +403,21 @@ def oracle_parse(case):
             labels.add('flat_sliced')
         # flattening must leave the per-run records as they were, and give the same answer when asked again
         _check_log_object(log, exp, 'after flatten: Log(%s)' % case['input'])
+        _check_flat(log, exp['runs'], case['flat'], None, None, labels)
+        # the merged table is the caller's: editing it in place must not reach the per-run records nor a later merge
+        for style in ('first', 'last', 'all'):
+            _scribble(log.flatten(style).thermo, case.get('scribble', 'drop'))
+        if first is not None or last is not None:
+            kw = {}
+            if first is not None:
+                kw['firstindex'] = first
+            if last is not None:
+                kw['lastindex'] = last
+            _scribble(log.flatten(case['flat'], **kw).thermo, case.get('scribble', 'drop'))
+        labels.add('scribble_' + case.get('scribble', 'drop'))
+        if len([r for r in exp['runs'] if r['rows']]) == 1 or len(exp['runs'][first:last]) == 1:
+            labels.add('merge_of_one_run')
+        _check_log_object(log, exp, 'after the caller edited the table returned by flatten() in place: Log(%s)' % case['input'])
         _check_flat(log, exp['runs'], case['flat'], None, None, labels)
     return labels
 
@@ -430,8 +475,9 @@ def oracle_history(case):
 
 
 CLAUSES = [
-    Clause('parse', oracle_parse, parse_cases, quick=5000, thorough=120000,
-           min_share={'nt': 0.3, 'truncated': 0.08, 'colsets_differ': 0.1, 'overlap': 0.2, 'in_path': 0.08, 'in_stream': 0.08},
+    Clause('parse', oracle_parse, parse_cases, quick=4000, thorough=120000,
+           min_share={'nt': 0.3, 'truncated': 0.08, 'colsets_differ': 0.1, 'overlap': 0.2, 'in_path': 0.05, 'in_stream': 0.05, 'in_pathlib': 0.05, 'in_bytes': 0.05,
+                      'crlf': 0.1, 'long_run': 0.03, 'bigint_steps': 0.08, 'merge_of_one_run': 0.08},
            desc='one log: simulations = blocks in order; thermo columns/rows/values as printed; version and date; timing breakdown does not matter; flatten first/last/all and slices'),
     Clause('history', oracle_history, history_cases, quick=1500, thorough=30000, min_share={'multi': 0.4, 'replace_after_append': 0.03},
            desc='Log()/Log(x)/read(x, append) sequences against a list model after every step; version keeps the first seen; flatten over the history'),
